@@ -15,6 +15,12 @@ struct Fam {
 
 fn applicable(f: &Fam, g: &GShape) -> bool {
     let b = g.base == spec::B;
+    if g.family == 2 {
+        return f.body == "c06";
+    }
+    if g.family == 1 {
+        return matches!(f.body, "c01" | "c02" | "c03") && !g.rows.is_empty();
+    }
     match f.body {
         "c01" => !g.rows.is_empty(),
         "c02" => b && !g.rows.is_empty(),
@@ -30,14 +36,14 @@ fn applicable(f: &Fam, g: &GShape) -> bool {
 
 pub fn emit_wrappers(all: &[GShape], out_dir: &str) {
     let fams = [
-        Fam { prop: "c01", body: "c01", batch: 8, kind: "W", timeout: 1500, mem: 8 },
-        Fam { prop: "c02", body: "c02", batch: 4, kind: "W", timeout: 1800, mem: 10 },
-        Fam { prop: "c03", body: "c03", batch: 4, kind: "W", timeout: 1800, mem: 10 },
-        Fam { prop: "c06", body: "c06", batch: 4, kind: "V", timeout: 1800, mem: 10 },
-        Fam { prop: "c06", body: "c06_d", batch: 10, kind: "W", timeout: 1500, mem: 8 },
-        Fam { prop: "c07", body: "c07", batch: 4, kind: "V", timeout: 1800, mem: 10 },
-        Fam { prop: "c09", body: "c09", batch: 8, kind: "W", timeout: 1500, mem: 8 },
-        Fam { prop: "c17", body: "c17", batch: 8, kind: "W", timeout: 1500, mem: 8 },
+        Fam { prop: "c01", body: "c01", batch: 8, kind: "W", timeout: 1500, mem: 4 },
+        Fam { prop: "c02", body: "c02", batch: 4, kind: "W", timeout: 1800, mem: 4 },
+        Fam { prop: "c03", body: "c03", batch: 4, kind: "W", timeout: 1800, mem: 4 },
+        Fam { prop: "c06", body: "c06", batch: 4, kind: "V", timeout: 1800, mem: 4 },
+        Fam { prop: "c06", body: "c06_d", batch: 10, kind: "W", timeout: 1500, mem: 4 },
+        Fam { prop: "c07", body: "c07", batch: 4, kind: "V", timeout: 1800, mem: 4 },
+        Fam { prop: "c09", body: "c09", batch: 8, kind: "W", timeout: 1500, mem: 4 },
+        Fam { prop: "c17", body: "c17", batch: 8, kind: "W", timeout: 1500, mem: 4 },
     ];
     let mut src = String::from("// generated - do not edit\n#![allow(clippy::all)]\nuse super::shapes::*;\n");
     for f in &fams {
